@@ -439,6 +439,7 @@ func runC12(c *an.Ctx) {
 	ruleK9(c)
 	ruleK10(c)
 	ruleK11(c)
+	ruleK12(c)
 }
 
 // loadBefore reports whether the field load v happens before the store st on
